@@ -2,7 +2,10 @@
    Statements only; the model is Sys/GitCfg.v, the programs are Gen/GitCfg.v (translated from /repo on every run),
    the proofs are in Sys/GitCfgProofs.v.  [tbl] is the generated table of the eight enable/disable programs. *)
 From Coq Require Import String List NArith Bool.
-From NB Require Import Base.Json Sys.GitCfg Gen.GitCfg Sys.GitCfgProofs.
+From NB Require Import Base.Json.
+From NB Require Import Sys.GitCfg.
+From NB Require Import Gen.GitCfg.
+From NB Require Import Sys.GitCfgProofs.
 Import ListNotations.
 
 (* Enabling twice = enabling once, for every command line (per driver/tool with or without --set-default, or
